@@ -133,6 +133,74 @@ def variant(rng, pts, p=0.28, kinds=('y', 'y', 'y', 'xoff', 'xtiny', 'xytiny', '
     return pts, '@' + kind
 
 
+MAG_KINDS = ('xytiny30', 'xtiny30', 'ytiny30', 'xoff30', 'yoff30', 'xyoff30', 'xoff50', 'xyhuge30')
+
+
+def magnitude_of(kind, arr):
+    """apply the named magnitude variant to an (m, 2) array of points of the same curve (e.g. expected knee positions)"""
+    q = np.array(arr, dtype=float)
+    if kind == 'xytiny30':
+        q *= 2.0 ** -30
+    elif kind == 'xtiny30':
+        q[:, 0] *= 2.0 ** -30
+    elif kind == 'ytiny30':
+        q[:, 1] *= 2.0 ** -30
+    elif kind == 'xoff30':
+        q[:, 0] += 2.0 ** 30
+    elif kind == 'yoff30':
+        q[:, 1] += 2.0 ** 30
+    elif kind == 'xyoff30':
+        q += 2.0 ** 30
+    elif kind == 'xoff50':
+        q[:, 0] += 2.0 ** 50
+    elif kind == 'xyhuge30':
+        q *= 2.0 ** 30
+    return q
+
+
+def magnitude(rng, pts, p=0.3, kinds=MAG_KINDS):
+    """Scale / offset variants that keep every coordinate exactly representable (power-of-two factors, dyadic offsets):
+    coordinates at ~1e-9 scale (absolute tolerances such as numpy's isclose/allclose atol=1e-8 misfire there), a large common
+    offset with a small spread (relative tolerances and uncentred one-pass formulas misfire there: epoch timestamps, byte counters),
+    ~1e9 scale.  The properties are statements about all finite curves; only the package's own documented eps guards depend on scale.
+    Returns (points, suffix); the curve is returned unchanged when the transform would not keep x strictly increasing."""
+    if rng.random() >= p:
+        return pts, ''
+    kind = rng.choice(list(kinds))
+    q = np.array(pts, dtype=float)
+    if kind == 'xytiny30':
+        q *= 2.0 ** -30
+    elif kind == 'xtiny30':
+        q[:, 0] *= 2.0 ** -30
+    elif kind == 'ytiny30':
+        q[:, 1] *= 2.0 ** -30
+    elif kind == 'xoff30':
+        q[:, 0] += 2.0 ** 30
+    elif kind == 'yoff30':
+        q[:, 1] += 2.0 ** 30
+    elif kind == 'xyoff30':
+        q += 2.0 ** 30
+    elif kind == 'xoff50':
+        q[:, 0] += 2.0 ** 50
+    elif kind == 'xyhuge30':
+        q *= 2.0 ** 30
+    if not np.all(np.isfinite(q)) or np.any(np.diff(q[:, 0]) <= 0):
+        return pts, ''
+    return q, '@' + kind
+
+
+def near_ties(rng, pts, p=0.15):
+    """perturb some heights by a few units in the last places (relative 2^-44 … 2^-40 < 1e-9): plateaus / repeated values become NEAR ties.
+    '<=' and '<' on heights are exact comparisons in the properties; a tolerance (math.isclose, np.isclose) changes the answer here."""
+    if rng.random() >= p:
+        return pts, ''
+    q = np.array(pts, dtype=float)
+    for i in range(len(q)):
+        if q[i, 1] > 0 and rng.random() < 0.4:
+            q[i, 1] *= 1.0 + rng.choice([-2, -1, 1, 2, 3]) * 2.0 ** -rng.choice([40, 42, 44])
+    return q, '@near-ties'
+
+
 def float_curve(rng, n):
     x = np.cumsum([rng.uniform(0.01, 3.0) for _ in range(n)])
     kind = rng.choice(['exp', 'walk', 'pow'])
